@@ -94,6 +94,15 @@ fn build(tier: Tier) -> Box<dyn Check> {
         corpus.push((s.to_string(), 0));
     }
     fams.push(("corpus".to_string(), Space::of(corpus)));
+    // many keys: the table rehashes on the way (orders are not exhaustible: run under every seed up to the cap)
+    let mut many = Vec::new();
+    for n in [5usize, 8, 9, 16, 17, 33] {
+        let build: String = (0..n).map(|i| format!("let x at \"k{}\" be \"v{}\"\n", (i * 7) % n, i)).collect();
+        for op in ["join x\nsay x\n", "join x with \",\"\nsay x\n", "put x into y\nlet y at \"k0\" be 5\nlet y at \"k1\" be 6\njoin y\n", "say x is x\nsay x at x\n", "put x into y\nsay y is x\nlet y at \"new\" be \"w\"\njoin y\nsay y\njoin x\nsay x\n"] {
+            many.push((format!("{}put x into dd\n{}", build, op), 0usize));
+        }
+    }
+    fams.push(("many-keys".to_string(), Space::of(many)));
     Box::new(C10 { fams, seed_cap: tier.pick(64, 600) })
 }
 
@@ -157,7 +166,7 @@ impl Check for C10 {
         let (text, k) = self.fams[fam].1.get(idx);
         ctx.case_text(&text);
         let want_orders = if k == 0 { 1 } else { factorial(k) };
-        let min_seeds = if k == 0 { 6 } else { 8 };
+        let min_seeds = if fam + 1 == self.fams.len() { self.seed_cap.min(64) } else if k == 0 { 6 } else { 8 };
         let mut orders: BTreeSet<String> = BTreeSet::new();
         let mut first: Option<(String, u64)> = None;
         let mut seed = 0u64;
